@@ -46,10 +46,10 @@ theorem downloadAdd_contained (agentsDir : List Bytes) (fs : Fs) (a : LootAgent)
       cases hb : insideDir (dlTarget agentsDir a name) (dlDirStr agentsDir a) with
       | true => rfl
       | false => exact absurd hb hin
-    by_cases hnul : (dlTarget agentsDir a name).contains 0 = true
+    by_cases hnul : (cleanComps (dlTarget agentsDir a name)).2.any (·.contains 0) = true
     · rw [if_pos hnul] at h; simp at h
     rw [if_neg hnul] at h ⊢
-    cases hm : fs.mkdirWalk (splitByte slash (dlTarget agentsDir a name)) with
+    cases hm : fs.mkdirAll (cleanComps (dlTarget agentsDir a name)).2 with
     | mk fs1 ok =>
       cases ok with
       | false => simp [hm] at h
@@ -64,6 +64,13 @@ theorem downloadAdd_contained (agentsDir : List Bytes) (fs : Fs) (a : LootAgent)
             refine ⟨_, List.mem_append_right _ (List.mem_singleton.mpr rfl), ?_⟩
             simp only [List.dropLast_concat]
             exact insideDir_components _ _ (by simp [dlTarget, dlDirStr]) (by simp [dlDirStr]) hin'
+
+/-- the directory `DownloadAdd` makes (with everything missing on the way) is the cleaned target, and that lies inside the
+    agent's Download directory: nothing is made outside it, whatever `..` the reported name walks through -/
+theorem downloadAdd_makes_inside (agentsDir : List Bytes) (a : LootAgent) (name : Bytes)
+    (h : insideDir (dlTarget agentsDir a name) (dlDirStr agentsDir a) = true) :
+    (cleanComps (dlDirStr agentsDir a)).2 <+: (cleanComps (dlTarget agentsDir a name)).2 :=
+  insideDir_components _ _ (by simp [dlTarget, dlDirStr]) (by simp [dlDirStr]) h
 
 /-- chunks for unknown or closed file ids are written nowhere -/
 theorem stray_write_inert (fs : Fs) (a : LootAgent) (fid : Nat) (data : Bytes)
